@@ -4,7 +4,7 @@
    rejected ([reject_*]); and the oddities / defects of the compiler, as refutations by computation. *)
 From Coq Require Import ZArith List Bool Lia NArith String Ascii DecimalString DecimalZ.
 From Coq.Strings Require Import Byte.
-From TS Require Import Bytes Codec Ops Names Asm Tables BytesLemmas CodecProofs AsmProofs Assembler.
+From TS Require Import Bytes Codec Ops Names Asm Tables TablesCheck BytesLemmas CodecProofs AsmProofs Assembler.
 Import ListNotations.
 Open Scope string_scope.
 Open Scope list_scope.
@@ -16,7 +16,7 @@ Open Scope Z_scope.
 
 Lemma is_digit_not_special : forall c, is_digit c = true ->
   Ascii.eqb c "+" = false /\ Ascii.eqb c "-" = false /\ Ascii.eqb c "." = false /\
-  Ascii.eqb c "_" = false /\ is_alnum_c c = true /\ (N_of_ascii c <? 128)%N = true.
+  Ascii.eqb c "_" = false /\ is_alnum_c c = true /\ plain_c c = true.
 Proof.
   intros c. destruct c as [[] [] [] [] [] [] [] []]; intros H; try discriminate H;
     repeat split; reflexivity.
@@ -247,7 +247,7 @@ Qed.
 
 Definition struct_syms : list string := ["{"; "}"; "("; ")"; "END_DEF"].
 Definition leafb (s : string) : bool := negb (unmodelled_symbol s) && negb (mem s struct_syms).
-Definition ascii_c (c : ascii) : bool := (N_of_ascii c <? 128)%N.
+Definition ascii_c (c : ascii) : bool := plain_c c.
 
 Lemma sall_imp : forall (f g : ascii -> bool), (forall c, f c = true -> g c = true) ->
   forall s, sall f s = true -> sall g s = true.
@@ -536,6 +536,32 @@ Section Values.
     - apply leaf_dx; [left; left; reflexivity|]. apply (sp_snum_ascii _ r H).
     - apply leaf_dx; [right; left; reflexivity|]. apply (sp_hex_ascii _ r H).
   Qed.
+
+  (* the explicit size of "OP_PUSH1 size value" / "OP_PUSH2 size value" (_check_push_size): d + an
+     integer (sign, leading zeros) or x + the hexadecimal of a non-empty big-endian byte string *)
+  Inductive sp_size (n : Z) : string -> Prop :=
+  | sz_d : forall c r, dD c -> sp_snum n r -> sp_size n (String c r)
+  | sz_x : forall c r b, xX c -> sp_hex b r -> b <> [] -> be_to_Z b = n -> sp_size n (String c r).
+
+  Lemma sp_size_ok : forall v a, sp_size (blen v) a -> check_push_size (Some a) v = Ok tt.
+  Proof.
+    intros v a [c r C H|c r b C H NE E]; unfold check_push_size.
+    - destruct (sp_snum_spec _ _ H) as (sg & d & Q & G & _ & V & S).
+      assert (N : nonempty r = true).
+      { rewrite Q. destruct S as [->|[->| ->]]; try reflexivity. cbn [append]. apply G. }
+      rewrite N. pfx_cases C; cbn - [py_int Z.eqb]; rewrite V; cbn [of_opt rbind]; rewrite Z.eqb_refl; reflexivity.
+    - assert (N : nonempty r = true).
+      { pose proof (sp_hex_length _ _ H) as L. destruct b; [congruence|]. cbn [List.length] in L.
+        destruct r; [cbn [String.length] in L; lia|reflexivity]. }
+      rewrite N. pfx_cases C; cbn - [Z.eqb]; rewrite (sp_hex_unhex _ _ H); cbn [of_opt rbind];
+        rewrite E, Z.eqb_refl; reflexivity.
+  Qed.
+  Lemma sp_size_leaf : forall n a, sp_size n a -> leafb a = true.
+  Proof.
+    intros n a [c r C H|c r b C H _ _]; apply leaf_dx; auto.
+    - apply (sp_snum_ascii n); exact H.
+    - apply (sp_hex_ascii b); exact H.
+  Qed.
 End Values.
 
 (* ====================================================================================== *)
@@ -712,13 +738,14 @@ Section Spells.
   | st_nop : forall c nx code cb v, sp_byte fl2 cb v -> stmt c nx [INop code cb] [nop_name code; v]
   | st_var1 : forall c nx o n v s, spell_name c o n -> shape_of o = ShVar1 \/ shape_of o = ShVar1Int ->
       sp_var1 fl2 v s -> stmt c nx [IVar1 o v] [n; s]
-  (* OP_PUSH1 / OP_PUSH2 (oddity O1): "name size value" where the size symbol is ignored and the value
-     must not look like a name; or "name value" when the next symbol looks like a name *)
-  | st_push1_2 : forall c nx n a v s, spell_name c O_PUSH1 n -> leafb a = true -> sp_var1 fl2 v s ->
+  (* OP_PUSH1 / OP_PUSH2 (oddity O1): "name size value" where the size symbol denotes the length of
+     the value and the value must not look like a name; or "name value" when the next symbol looks
+     like a name *)
+  | st_push1_2 : forall c nx n a v s, spell_name c O_PUSH1 n -> sp_size (blen v) a -> sp_var1 fl2 v s ->
       oplike s = false -> stmt c nx [IVar1 O_PUSH1 v] [n; a; s]
   | st_push1_1 : forall c t n v s, spell_name c O_PUSH1 n -> sp_var1 fl2 v s -> oplike t = true ->
       stmt c (Some t) [IVar1 O_PUSH1 v] [n; s]
-  | st_push2_2 : forall c nx n a v s, spell_name c O_PUSH2 n -> leafb a = true -> sp_push2 fl2 v s ->
+  | st_push2_2 : forall c nx n a v s, spell_name c O_PUSH2 n -> sp_size (blen v) a -> sp_push2 fl2 v s ->
       oplike s = false -> stmt c nx [IPush2 v] [n; a; s]
   | st_push2_1 : forall c t n v s, spell_name c O_PUSH2 n -> sp_push2 fl2 v s -> oplike t = true ->
       stmt c (Some t) [IPush2 v] [n; s]
@@ -975,7 +1002,7 @@ Section Invariants.
           | eapply sp_push2_leaf; eassumption | eapply sp_pushv_leaf; eassumption
           | eapply sp_key_leaf; eassumption | eapply sp_count_leaf; eassumption
           | eapply sp_index_leaf; eassumption | eapply sp_xval_leaf; eassumption
-          | eapply sp_handle_leaf; eassumption
+          | eapply sp_handle_leaf; eassumption | eapply sp_size_leaf; eassumption
           | assumption | reflexivity ].
   Local Ltac gd :=
     repeat first
@@ -1681,11 +1708,11 @@ Section Main.
     cbn [wf_prog forallb wf] in W. rewrite andb_true_r in W. apply andb_prop in W as [_ W].
     rewrite PN_S, (pn_opcode fl2 _ _ c n _ o N SO). cbn [app tl]. unfold get_args.
     destruct S as [S|S]; rewrite S; unfold args_push1; cbn [pick_val rbind];
-      rewrite (sp_var1_ok fl2 v s V); cbn [rbind]; unfold len1_r; rewrite W; cbn [rbind];
+      rewrite (sp_var1_ok fl2 v s V); cbn [rbind]; unfold len1_r; rewrite W; cbn [rbind check_push_size];
       rewrite encode_one; reflexivity.
   Qed.
 
-  Lemma L_push1_2 : forall c nx n a v s, spell_name c O_PUSH1 n -> leafb a = true -> sp_var1 fl2 v s ->
+  Lemma L_push1_2 : forall c nx n a v s, spell_name c O_PUSH1 n -> sp_size (blen v) a -> sp_var1 fl2 v s ->
     oplike s = false -> P_stmt c nx [IVar1 O_PUSH1 v] [n; a; s].
   Proof.
     intros c nx n a v s N A V O. start n [a; s].
@@ -1694,7 +1721,7 @@ Section Main.
     rewrite PN_S, (pn_opcode fl2 _ _ c n _ O_PUSH1 N eq_refl). cbn [app tl]. unfold get_args. cbn [shape_of].
     unfold args_push1. cbn [pick_val]. rewrite O. cbn [rbind].
     rewrite (sp_var1_ok fl2 v s V); cbn [rbind]; unfold len1_r; rewrite W; cbn [rbind].
-    rewrite encode_one. reflexivity.
+    rewrite (sp_size_ok v a A); cbn [rbind]. rewrite encode_one. reflexivity.
   Qed.
 
   Lemma L_push1_1 : forall c t n v s, spell_name c O_PUSH1 n -> sp_var1 fl2 v s -> oplike t = true ->
@@ -1706,11 +1733,11 @@ Section Main.
     cbn [wf_prog forallb wf] in W. rewrite andb_true_r in W. apply andb_prop in W as [_ W].
     rewrite PN_S, (pn_opcode fl2 _ _ c n _ O_PUSH1 N eq_refl). cbn [app tl]. unfold get_args. cbn [shape_of].
     unfold args_push1. cbn [pick_val]. rewrite O. cbn [rbind].
-    rewrite (sp_var1_ok fl2 v s V); cbn [rbind]; unfold len1_r; rewrite W; cbn [rbind].
+    rewrite (sp_var1_ok fl2 v s V); cbn [rbind]; unfold len1_r; rewrite W; cbn [rbind check_push_size].
     rewrite encode_one. reflexivity.
   Qed.
 
-  Lemma L_push2_2 : forall c nx n a v s, spell_name c O_PUSH2 n -> leafb a = true -> sp_push2 fl2 v s ->
+  Lemma L_push2_2 : forall c nx n a v s, spell_name c O_PUSH2 n -> sp_size (blen v) a -> sp_push2 fl2 v s ->
     oplike s = false -> P_stmt c nx [IPush2 v] [n; a; s].
   Proof.
     intros c nx n a v s N A V O. start n [a; s].
@@ -1719,7 +1746,7 @@ Section Main.
     rewrite PN_S, (pn_opcode fl2 _ _ c n _ O_PUSH2 N eq_refl). cbn [app tl]. unfold get_args. cbn [shape_of].
     unfold args_push2. cbn [pick_val]. rewrite O. cbn [rbind].
     rewrite (sp_push2_ok fl2 v s V); cbn [rbind]; unfold len2_r; rewrite W; cbn [rbind].
-    rewrite encode_one. reflexivity.
+    rewrite (sp_size_ok v a A); cbn [rbind]. rewrite encode_one. reflexivity.
   Qed.
 
   Lemma L_push2_1 : forall c t n v s, spell_name c O_PUSH2 n -> sp_push2 fl2 v s -> oplike t = true ->
@@ -1731,7 +1758,7 @@ Section Main.
     cbn [wf_prog forallb wf] in W. rewrite andb_true_r in W.
     rewrite PN_S, (pn_opcode fl2 _ _ c n _ O_PUSH2 N eq_refl). cbn [app tl]. unfold get_args. cbn [shape_of].
     unfold args_push2. cbn [pick_val]. rewrite O. cbn [rbind].
-    rewrite (sp_push2_ok fl2 v s V); cbn [rbind]; unfold len2_r; rewrite W; cbn [rbind].
+    rewrite (sp_push2_ok fl2 v s V); cbn [rbind]; unfold len2_r; rewrite W; cbn [rbind check_push_size].
     rewrite encode_one. reflexivity.
   Qed.
 
@@ -2155,7 +2182,7 @@ Section Main.
     pose proof (IH H f' ("}" :: r) ltac:(lia) eq_refl) as R.
     destruct (good_seq fl2 _ _ _ _ S H) as (B & _).
     rewrite PN_S, pn_def_kw by exact N. cbn [app].
-    rewrite (def_braces (PN f') n hs h sb r (encode b) (sp_handle_ok h hs Hh) B R H0).
+    rewrite (def_braces (ASM f') (PN f') n hs h sb r (encode b) (sp_handle_ok h hs Hh) B R H0).
     rewrite encode_one, enc_def. cbn [List.length]. rewrite length_braces. f_equal. f_equal. lia.
   Qed.
 
@@ -2172,7 +2199,7 @@ Section Main.
     destruct (leafb_spec hs (sp_handle_leaf h hs Hh)) as (_ & _ & _ & _ & _ & K2).
     rewrite String.eqb_sym in K1, K2.
     rewrite PN_S, pn_def_kw by exact N. cbn [app]. rewrite <- app_assoc. cbn [app].
-    rewrite (def_ended (PN f') n hs h sb r (encode b) (sp_handle_ok h hs Hh) K1 K2 (M eq_refl) R H0).
+    rewrite (def_ended (ASM f') (PN f') n hs h sb r (encode b) (sp_handle_ok h hs Hh) K1 K2 (M eq_refl) R H0).
     rewrite encode_one, enc_def. cbn [List.length]. rewrite app_length. cbn [List.length]. f_equal. f_equal. lia.
   Qed.
 
@@ -2236,3 +2263,811 @@ Section Main.
     - apply L_cons; assumption.
   Qed.
 End Main.
+
+(* ====================================================================================== *)
+(* Main theorem: every spelling of a well-formed program assembles to its encoding          *)
+(* ====================================================================================== *)
+
+Theorem assemble_r_spells : forall fl2 p syms,
+  spells fl2 p syms -> wf_prog p = true -> assemble_r fl2 syms = Ok (encode p).
+Proof.
+  intros fl2 p syms S W. unfold assemble_r.
+  destruct (good_seq fl2 _ _ _ _ S W) as (_ & _ & U & _). rewrite U.
+  pose proof (proj2 (proj2 (spells_correct fl2)) _ _ _ _ S W (Datatypes.S (List.length syms)) []
+                ltac:(lia) eq_refl) as R.
+  rewrite app_nil_r in R.
+  apply (asm_loop_run _ Top _ _ _ R); [discriminate|apply le_n].
+Qed.
+
+Theorem assemble_spells : forall fl2 p syms,
+  spells fl2 p syms -> wf_prog p = true -> assemble fl2 syms = Some (encode p).
+Proof. intros fl2 p syms S W. unfold assemble. rewrite (assemble_r_spells fl2 p syms S W). reflexivity. Qed.
+
+
+(* ====================================================================================== *)
+(* The decompiler's listing is one of the spellings                                         *)
+(* ====================================================================================== *)
+
+(* math.log2 is exact on the magnitudes of one-byte integers *)
+Definition fl2_small (fl2 : Z -> Z) : Prop := forall a, 0 < a <= 128 -> fl2 a = Z.log2 a.
+
+Lemma fl2_exact_small : fl2_small fl2_exact.
+Proof. intros a _. reflexivity. Qed.
+
+Lemma s8_range : forall b, -128 <= s8 b <= 127.
+Proof. destruct b; vm_compute; split; discriminate. Qed.
+Lemma i2b_s8_exact : forall b, int_to_bytes fl2_exact (s8 b) = Some [b].
+Proof. destruct b; vm_compute; reflexivity. Qed.
+Lemma i2b_s8 : forall fl2, fl2_small fl2 -> forall b, int_to_bytes fl2 (s8 b) = Some [b].
+Proof.
+  intros fl2 F b. rewrite <- (i2b_s8_exact b). pose proof (s8_range b) as R. unfold int_to_bytes.
+  destruct (Z.abs (s8 b) =? 0) eqn:E; [reflexivity|]. apply Z.eqb_neq in E.
+  rewrite F by lia. reflexivity.
+Qed.
+
+Lemma lower_nib : forall a b c d, lower_c (nib a b c d) = nib a b c d.
+Proof. intros [] [] [] []; reflexivity. Qed.
+Lemma lower_hex : forall v, lower_s (hex v) = hex v.
+Proof.
+  induction v as [|x t IH]; [reflexivity|]. cbn [hex].
+  destruct (Byte.to_bits x) as (b0 & b1 & b2 & b3 & b4 & b5 & b6 & b7).
+  unfold lower_s in *. cbn [smap]. rewrite !lower_nib, IH. reflexivity.
+Qed.
+Lemma sp_hex_hex : forall v, sp_hex v (hex v).
+Proof. intros v. apply lower_hex. Qed.
+
+Lemma sp_snum_dec : forall z, sp_snum z (dec z).
+Proof.
+  intros z. destruct (Z.ltb_spec z 0) as [H|H].
+  - rewrite (dec_neg z H). apply sn_minus. apply num_dec. lia.
+  - apply sn_plain. apply num_dec. exact H.
+Qed.
+
+Lemma oplike_x : forall r, oplike (String "x" r) = false.
+Proof. intros r. vm_compute. reflexivity. Qed.
+
+Lemma leaf_tok_d : forall z, leafb (tok_d z) = true.
+Proof.
+  intros z. unfold tok_d. apply leaf_dx; [left; left; reflexivity|]. apply (sp_snum_ascii z). apply sp_snum_dec.
+Qed.
+
+Lemma b2z_nonneg : forall b, 0 <= b2z b.
+Proof. destruct b; vm_compute; discriminate. Qed.
+
+(* no DEF directly in the body of a DEF (the compiler refuses it: parse_def) *)
+Fixpoint ldef_ok (direct : bool) (i : instr) : bool :=
+  match i with
+  | IDef _ body => negb direct && forallb (ldef_ok true) body
+  | IIf body | ILoop body => forallb (ldef_ok false) body
+  | IIfElse b1 b2 | ITry b1 b2 => forallb (ldef_ok false) b1 && forallb (ldef_ok false) b2
+  | _ => true
+  end.
+Definition is_direct (c : ctx) : bool := match c with DefDirect => true | _ => false end.
+Lemma is_direct_sub : forall c, is_direct (sub_ctx c) = false.
+Proof. destruct c; reflexivity. Qed.
+
+Section Listing.
+  Variable fl2 : Z -> Z.
+  Hypothesis F : fl2_small fl2.
+
+  Definition nxok (nx : option string) : Prop := nx <> Some "ELSE" /\ nx <> Some "EXCEPT".
+
+  Definition LP (i : instr) : Prop := forall c nx, wf i = true -> ldef_ok (is_direct c) i = true -> nxok nx ->
+    stmt fl2 c nx [i] (ptoks1 fl2 i).
+  Definition LPs (p : list instr) : Prop := forall c nx, wf_prog p = true ->
+    forallb (ldef_ok (is_direct c)) p = true -> nxok nx -> seq fl2 c nx p (ptoks fl2 p).
+
+  Lemma nxok_head : forall p nx, wf_prog p = true -> nxok nx -> nxok (hd_or nx (ptoks fl2 p)).
+  Proof.
+    intros [|i p] nx W N; [exact N|]. rewrite wf_prog_cons in W. apply andb_prop in W as [Wi _].
+    destruct (ptoks1_head fl2 i Wi) as (t & r0 & E & _ & B).
+    unfold ptoks. cbn [flat_map]. rewrite E. cbn [app hd_or].
+    split; intros Q; injection Q as ->; apply B; reflexivity.
+  Qed.
+
+  Lemma LPs_of : forall p, Forall LP p -> LPs p.
+  Proof.
+    induction 1 as [|i p Hi Hp IH]; intros c nx W D N.
+    - apply sq_nil.
+    - rewrite wf_prog_cons in W. apply andb_prop in W as [Wi Wp].
+      cbn [forallb] in D. apply andb_prop in D as [Di Dp].
+      change (i :: p) with ([i] ++ p). change (ptoks fl2 ([i] ++ p)) with (ptoks1 fl2 i ++ ptoks fl2 p).
+      apply sq_cons; [|apply IH; assumption].
+      apply Hi; try assumption. apply nxok_head; assumption.
+  Qed.
+
+  Lemma name_self : forall c o, spell_name c o (opcode_name o).
+  Proof. intros. left. reflexivity. Qed.
+
+  Lemma sp_byte_tok_d : forall b, sp_byte fl2 b (tok_d (s8 b)).
+  Proof. intros b. apply (sb_d fl2 b "d" _ (s8 b)); [left; reflexivity|apply sp_snum_dec|apply i2b_s8; exact F]. Qed.
+  Lemma sp_byte_tok_x : forall b, sp_byte fl2 b (tok_x [b]).
+  Proof. intros b. apply sb_x; [left; reflexivity|apply sp_hex_hex]. Qed.
+  Lemma sp_index_tok_d : forall b, sp_index b (tok_d (b2z b)).
+  Proof. intros b. apply si_d; [left; reflexivity|]. apply num_dec. apply b2z_nonneg. Qed.
+  Lemma sp_index_tok_x : forall b, sp_index b (tok_x [b]).
+  Proof. intros b. apply si_x; [left; reflexivity|apply sp_hex_hex]. Qed.
+  Lemma sp_var1_tok_x : forall v, sp_var1 fl2 v (tok_x v).
+  Proof. intros v. apply sv_x; [left; reflexivity|apply sp_hex_hex]. Qed.
+
+  Lemma sp_size_tok_d : forall z, sp_size z (tok_d z).
+  Proof. intros z. apply sz_d; [left; reflexivity|apply sp_snum_dec]. Qed.
+
+  Lemma sp_var1_int_tok : forall v, sp_var1 fl2 v (int_tok fl2 v).
+  Proof.
+    intros v. unfold int_tok. destruct v as [|x t]; [apply sp_var1_tok_x|].
+    destruct (bytes_to_int (x :: t)) as [z|]; [|apply sp_var1_tok_x].
+    destruct (int_to_bytes fl2 z) as [v'|] eqn:E; [|apply sp_var1_tok_x].
+    destruct (bytes_eqb v' (x :: t)) eqn:B; [|apply sp_var1_tok_x].
+    apply bytes_eqb_eq in B. subst v'.
+    apply (sv_d fl2 _ "d" _ z); [left; reflexivity| |exact E]. apply fn_int. apply sp_snum_dec.
+  Qed.
+
+  Lemma braces_eq : forall sb, "{" :: sb ++ ["}"] = braces sb.
+  Proof. reflexivity. Qed.
+
+  Lemma LP_all : forall i, LP i.
+  Proof.
+    induction i using instr_ind'; intros cx nx W D N; cbn [wf] in W; cbn [ptoks1 simple_toks].
+    - (* IOp0 *) destruct (shape_of o) eqn:S; try discriminate W. apply st_op0; [apply name_self|exact S].
+    - (* IOp1 *)
+      destruct (shape_of o) eqn:S; try discriminate W; apply st_op1; try apply name_self; try (rewrite S; reflexivity).
+      + apply sp_byte_tok_d.
+      + apply sp_byte_tok_x.
+    - (* IVar1 *)
+      apply andb_prop in W as [W1 W2]. destruct (shape_of o) eqn:S; try discriminate W1.
+      + pose proof (shape_push1 o S) as ->.
+        apply st_push1_2; [apply name_self|apply sp_size_tok_d|apply sp_var1_tok_x|apply oplike_x].
+      + apply st_var1; [apply name_self|left; exact S|apply sp_var1_tok_x].
+      + apply st_var1; [apply name_self|right; exact S|apply sp_var1_int_tok].
+    - (* IWriteCache *)
+      apply st_wc; [apply name_self|apply sk_x; [left; reflexivity|apply sp_hex_hex]|].
+      apply sc_d; [left; reflexivity|]. apply num_dec. apply b2z_nonneg.
+    - (* IPush2 *)
+      apply st_push2_2; [apply name_self|apply sp_size_tok_d| |apply oplike_x].
+      apply s2_x; [left; reflexivity|apply sp_hex_hex].
+    - (* IFix *) apply st_fix; [apply name_self|]. apply sx_x; [left; reflexivity|apply sp_hex_hex].
+    - (* ISwap *) apply st_swap; [apply name_self|apply sp_index_tok_d|apply sp_index_tok_d].
+    - (* IMultisig *) apply st_ms; [apply name_self|apply sp_index_tok_x|apply sp_index_tok_d|apply sp_index_tok_d].
+    - (* IDef *)
+      apply andb_prop in W as [W _]. cbn [ldef_ok] in D. apply andb_prop in D as [D1 D2].
+      apply negb_true_iff in D1.
+      change (flat_map (ptoks1 fl2) body) with (ptoks fl2 body). rewrite braces_eq.
+      apply st_def_b.
+      + intros ->. discriminate D1.
+      + apply name_self.
+      + apply sh_bare. apply num_dec. apply b2z_nonneg.
+      + apply (LPs_of _ H DefDirect); [exact W|exact D2|split; discriminate].
+    - (* IIf *)
+      apply andb_prop in W as [W _]. cbn [ldef_ok] in D.
+      change (flat_map (ptoks1 fl2) body) with (ptoks fl2 body). rewrite braces_eq.
+      apply st_if; [apply name_self|]. apply it_b; [|apply N].
+      apply (LPs_of _ H (sub_ctx cx)); [exact W|rewrite is_direct_sub; exact D|split; discriminate].
+    - (* IIfElse *)
+      apply andb_prop in W as [W _]. apply andb_prop in W as [W W3]. apply andb_prop in W as [W1 _].
+      cbn [ldef_ok] in D. apply andb_prop in D as [D1 D2].
+      change (flat_map (ptoks1 fl2) b1) with (ptoks fl2 b1). change (flat_map (ptoks1 fl2) b2) with (ptoks fl2 b2).
+      replace ("{" :: ptoks fl2 b1 ++ "}" :: "ELSE" :: "{" :: ptoks fl2 b2 ++ ["}"])
+        with (braces (ptoks fl2 b1) ++ "ELSE" :: braces (ptoks fl2 b2))
+        by (unfold braces; cbn [app]; rewrite <- app_assoc; reflexivity).
+      apply st_if; [apply name_self|]. apply ite_bb.
+      + apply (LPs_of _ H (sub_ctx cx)); [exact W1|rewrite is_direct_sub; exact D1|split; discriminate].
+      + apply (LPs_of _ H0 (sub_ctx cx)); [exact W3|rewrite is_direct_sub; exact D2|split; discriminate].
+    - (* ITry *)
+      apply andb_prop in W as [W _]. apply andb_prop in W as [W W3]. apply andb_prop in W as [W1 _].
+      cbn [ldef_ok] in D. apply andb_prop in D as [D1 D2].
+      change (flat_map (ptoks1 fl2) b1) with (ptoks fl2 b1). change (flat_map (ptoks1 fl2) b2) with (ptoks fl2 b2).
+      pose proof (LPs_of _ H (sub_ctx cx) (Some "}") W1 ltac:(rewrite is_direct_sub; exact D1)
+                    ltac:(split; discriminate)) as S1.
+      pose proof (LPs_of _ H0 (sub_ctx cx) (Some "}") W3 ltac:(rewrite is_direct_sub; exact D2)
+                    ltac:(split; discriminate)) as S2.
+      destruct (ptoks fl2 b2) as [|t2 ts2] eqn:E2.
+      + assert (b2 = []) as ->.
+        { destruct b2 as [|i2 b2']; [reflexivity|]. exfalso. unfold ptoks in E2. cbn [flat_map] in E2.
+          apply app_eq_nil in E2 as [E2 _]. exact (ptoks1_nonempty _ _ E2). }
+        cbn [app]. rewrite braces_eq. apply st_try_b; [right; reflexivity|exact S1|apply N].
+      + rewrite <- E2 in *.
+        replace ("OP_TRY" :: "{" :: ptoks fl2 b1 ++ ("}" :: "EXCEPT" :: "{" :: ptoks fl2 b2) ++ ["}"])
+          with ("OP_TRY" :: braces (ptoks fl2 b1) ++ "EXCEPT" :: braces (ptoks fl2 b2))
+          by (unfold braces; cbn [app]; rewrite <- app_assoc; reflexivity).
+        apply st_try_bb; [right; reflexivity|exact S1|exact S2].
+    - (* ILoop *)
+      apply andb_prop in W as [W _]. cbn [ldef_ok] in D.
+      change (flat_map (ptoks1 fl2) body) with (ptoks fl2 body). rewrite braces_eq.
+      apply st_loop_b; [apply name_self|].
+      apply (LPs_of _ H (sub_ctx cx)); [exact W|rewrite is_direct_sub; exact D|split; discriminate].
+    - (* INop *) apply st_nop. apply sp_byte_tok_d.
+  Qed.
+
+  Theorem listing_spells : forall p, wf_prog p = true -> forallb (ldef_ok false) p = true ->
+    spells fl2 p (ptoks fl2 p).
+  Proof.
+    intros p W D. apply (LPs_of p); [|exact W|exact D|split; discriminate].
+    apply Forall_forall. intros i _. apply LP_all.
+  Qed.
+
+  (* assemble generalises the reader of the decompiler's listing (Asm.parse_listing) *)
+  Theorem assemble_listing : forall p ind, wf_prog p = true -> forallb (ldef_ok false) p = true ->
+    assemble fl2 (tokens_of (print fl2 ind p)) = Some (encode p).
+  Proof.
+    intros p ind W D. rewrite tokens_print. apply assemble_spells; [apply listing_spells; assumption|exact W].
+  Qed.
+
+  Corollary assemble_parse_listing : forall p ind, wf_prog p = true -> forallb (ldef_ok false) p = true ->
+    assemble fl2 (tokens_of (print fl2 ind p)) =
+    option_map encode (parse_listing fl2 (tokens_of (print fl2 ind p))).
+  Proof.
+    intros p ind W D. rewrite assemble_listing, listing_roundtrip by assumption. reflexivity.
+  Qed.
+
+  (* on what the decompiler lists for valid byte code *)
+  Corollary assemble_decompile : forall b ls, decompile fl2 b = Some ls ->
+    (forall p, decode b = Some p -> forallb (ldef_ok false) p = true) ->
+    assemble fl2 (tokens_of ls) = Some b.
+  Proof.
+    intros b ls H D. destruct (decompile_sound fl2 b ls H) as (p & -> & E & W & _).
+    rewrite assemble_listing; [congruence|exact W|]. apply D. rewrite <- E. apply decode_encode. exact W.
+  Qed.
+End Listing.
+
+
+(* ====================================================================================== *)
+(* Rejections: after any well-spelled prefix, a malformed statement makes the Python raise  *)
+(* ====================================================================================== *)
+
+Lemma asm_loop_run_gen : forall pn c l r code k, run pn c l r code k -> c <> DefDirect ->
+  forall n X, (List.length l <= n)%nat ->
+  (forall n', (List.length r <= n')%nat -> asm_loop pn n' r = X) ->
+  asm_loop pn n l = rbind X (fun code' => Ok (code ++ code')).
+Proof.
+  intros pn c l r code k R C. induction R as [r|h ss l' r code code' k Hh P R IH]; intros n X L F.
+  - rewrite (F n L). destruct X; reflexivity.
+  - rewrite app_length in L. cbn [List.length] in L. destruct n as [|n']; [lia|].
+    cbn [app asm_loop]. rewrite (defpre_id c h C) in P. cbn [app] in P. rewrite P. cbn [rbind].
+    rewrite skipn_stmt. rewrite (IH n' X) by (try lia; exact F).
+    destruct X; cbn [rbind]; try reflexivity. rewrite app_assoc. reflexivity.
+Qed.
+
+Section Rejections.
+  Variable fl2 : Z -> Z.
+  Notation PN := (pn_fuel fl2).
+
+  (* the general form: a prefix that is a spelling, then symbols on which parse_next raises *)
+  Theorem reject_after : forall nx p sp rest,
+    seq fl2 Top nx p sp -> wf_prog p = true -> hd_error rest = nx ->
+    existsb unmodelled_symbol rest = false ->
+    (forall f n', asm_loop (PN (S f)) (S n') rest = Err) ->
+    assemble_r fl2 (sp ++ rest) = Err.
+  Proof.
+    intros nx p sp rest S W Hr U E. unfold assemble_r.
+    destruct (good_seq fl2 _ _ _ _ S W) as (_ & _ & U1 & _). rewrite existsb_app, U1, U. cbn [orb].
+    pose proof (proj2 (proj2 (spells_correct fl2)) _ _ _ _ S W (Datatypes.S (List.length (sp ++ rest))) rest
+                  ltac:(rewrite app_length; lia) Hr) as R.
+    rewrite (asm_loop_run_gen _ Top _ _ _ _ R ltac:(discriminate) _ Err (le_n _)); [reflexivity|].
+    intros n' L. destruct rest as [|x rest']; [|destruct n'; [cbn [List.length] in L; lia|apply E]].
+    (* rest = []: the hypothesis E is then false *)
+    specialize (E O O). destruct n'; discriminate E.
+  Qed.
+
+  Lemma asm_loop_err : forall f n' c rest, PN (S f) c (c :: rest) = Err ->
+    asm_loop (PN (S f)) (S n') (c :: rest) = Err.
+  Proof. intros f n' c rest H. cbn [asm_loop]. rewrite H. reflexivity. Qed.
+
+  (* 1. operand missing at the end of the source *)
+  Lemma get_args_nil : forall o, shape_of o <> ShNone -> get_args fl2 o [] = Err.
+  Proof. intros o H. unfold get_args. destruct (shape_of o); try reflexivity. congruence. Qed.
+
+  Theorem reject_operand_missing : forall p sp o n,
+    seq fl2 Top (Some n) p sp -> wf_prog p = true ->
+    spell_name Top o n -> simple_op o = true -> shape_of o <> ShNone ->
+    assemble_r fl2 (sp ++ [n]) = Err.
+  Proof.
+    intros p sp o n S W N SO SH. apply (reject_after (Some n) p sp [n] S W eq_refl).
+    - cbn [existsb]. destruct (leafb_spec n (spell_name_leaf Top o n N)) as (U & _). rewrite U. reflexivity.
+    - intros f n'. apply asm_loop_err. rewrite PN_S.
+      change n with (defpre Top n) at 1. rewrite (pn_opcode fl2 _ _ Top n _ o N SO).
+      cbn [tl]. rewrite get_args_nil by exact SH. reflexivity.
+  Qed.
+
+  Theorem reject_operand_missing_nop : forall p sp code,
+    seq fl2 Top (Some (nop_name code)) p sp -> wf_prog p = true -> (n_opcodes <= code < 256)%nat ->
+    assemble_r fl2 (sp ++ [nop_name code]) = Err.
+  Proof.
+    intros p sp code S W R. apply (reject_after _ p sp [nop_name code] S W eq_refl).
+    - cbn [existsb]. destruct (leafb_spec _ (nop_name_leaf code R)) as (U & _). rewrite U. reflexivity.
+    - intros f n'. apply asm_loop_err. rewrite PN_S.
+      change (nop_name code) with (defpre Top (nop_name code)) at 1. rewrite (pn_nop fl2 _ _ Top code _ R).
+      reflexivity.
+  Qed.
+
+  Theorem reject_operand_missing_push : forall p sp n,
+    seq fl2 Top (Some n) p sp -> wf_prog p = true -> push_name n ->
+    assemble_r fl2 (sp ++ [n]) = Err.
+  Proof.
+    intros p sp n S W N. apply (reject_after (Some n) p sp [n] S W eq_refl).
+    - destruct N as [->| ->]; reflexivity.
+    - intros f n'. apply asm_loop_err. rewrite PN_S. destruct N as [->| ->]; reflexivity.
+  Qed.
+
+  (* the second operand of two, the third of three *)
+  Theorem reject_second_operand_missing : forall p sp o n v,
+    seq fl2 Top (Some n) p sp -> wf_prog p = true -> spell_name Top o n ->
+    shape_of o = ShSwap \/ shape_of o = ShMultisig \/ shape_of o = ShWriteCache ->
+    unmodelled_symbol v = false ->
+    assemble_r fl2 (sp ++ [n; v]) = Err.
+  Proof.
+    intros p sp o n v S W N SH U. apply (reject_after (Some n) p sp [n; v] S W eq_refl).
+    - cbn [existsb]. destruct (leafb_spec n (spell_name_leaf Top o n N)) as (U' & _). rewrite U', U. reflexivity.
+    - intros f n'. apply asm_loop_err. rewrite PN_S.
+      assert (SO : simple_op o = true) by (apply simple_by_shape; destruct SH as [H|[H|H]]; rewrite H; exact I).
+      change n with (defpre Top n) at 1. rewrite (pn_opcode fl2 _ _ Top n _ o N SO).
+      cbn [tl]. unfold get_args. destruct SH as [H|[H|H]]; rewrite H; reflexivity.
+  Qed.
+
+  (* 2. value out of range for its operand *)
+  Lemma i2b_one_byte_range : CodecProofs.fl2_ok fl2 -> forall z b, int_to_bytes fl2 z = Some [b] -> -128 <= z <= 127.
+  Proof.
+    intros F z b H. destruct (int_roundtrip fl2 F z) as (b' & E & D & _). rewrite H in E. injection E as <-.
+    rewrite s8_spec in D. injection D as <-. apply s8_range.
+  Qed.
+
+  Lemma val_byte_out_of_range : CodecProofs.fl2_ok fl2 -> forall c r z, dD c -> sp_snum z r ->
+    ~ (-128 <= z <= 127) -> val_byte fl2 (String c r) = Err.
+  Proof.
+    intros F c r z C H R. unfold val_byte, split_val. cbn [rbind].
+    destruct (sp_snum_spec z r H) as (sg & d & E & G & L & V & S).
+    assert (SD : split_dot r = r).
+    { rewrite E. apply (proj1 (split_dot_sign sg d S (proj2 G) "")). }
+    assert (K : rbind (i2b fl2 z) (fun v => match v with [_] => Ok v | _ => Err end) = Err).
+    { unfold i2b. destruct (int_to_bytes fl2 z) as [[|b [|b2 t]]|] eqn:I; try reflexivity.
+      exfalso. apply R. apply (i2b_one_byte_range F z b I). }
+    destruct C as [->| ->]; cbn [lower_c is_upper asc_between]; cbn [N_of_ascii N.leb]; cbv iota;
+      change (Ascii.eqb (lower_c "D") "d") with true; change (Ascii.eqb "d" "d") with true; cbv iota;
+      rewrite L; unfold isnumeric; rewrite (proj1 G), (proj2 G); cbn [andb];
+      rewrite SD, V; cbn [of_opt rbind]; exact K.
+  Qed.
+
+  Lemma val_byte_hex_too_long : forall c r, xX c -> (2 < String.length r)%nat -> val_byte fl2 (String c r) = Err.
+  Proof.
+    intros c r C L. unfold val_byte, split_val. cbn [rbind].
+    rewrite (proj2 (Nat.leb_gt _ _)) by lia. destruct C as [->| ->]; reflexivity.
+  Qed.
+
+  Lemma val_index_out_of_range : forall c r z, dD c -> sp_num z r -> 256 <= z -> val_index (String c r) = Err.
+  Proof.
+    intros c r z C H R. unfold val_index, split_val. cbn [rbind].
+    destruct (sp_num_spec _ _ H) as (_ & _ & V).
+    destruct C as [->| ->]; cbn - [Z.ltb]; rewrite (sp_num_isnumeric _ _ H), V; cbn [of_opt rbind];
+      rewrite (proj2 (Z.ltb_ge _ _)) by lia; reflexivity.
+  Qed.
+
+  Theorem reject_bad_byte_operand : forall p sp o n v rest,
+    seq fl2 Top (Some n) p sp -> wf_prog p = true -> spell_name Top o n -> is_sh1 (shape_of o) = true ->
+    val_byte fl2 v = Err -> existsb unmodelled_symbol (v :: rest) = false ->
+    assemble_r fl2 (sp ++ n :: v :: rest) = Err.
+  Proof.
+    intros p sp o n v rest S W N SH E U. apply (reject_after (Some n) p sp (n :: v :: rest) S W eq_refl).
+    - cbn [existsb] in *. destruct (leafb_spec n (spell_name_leaf Top o n N)) as (U' & _). rewrite U'. exact U.
+    - intros f n'. apply asm_loop_err. rewrite PN_S.
+      assert (SO : simple_op o = true).
+      { destruct (simple_op o) eqn:Q; [reflexivity|].
+        destruct (shape_simple o Q) as [Q1|[Q1|Q1]]; rewrite Q1 in SH; discriminate SH. }
+      change n with (defpre Top n) at 1. rewrite (pn_opcode fl2 _ _ Top n _ o N SO).
+      cbn [tl]. unfold get_args. destruct (shape_of o); try discriminate SH; unfold args_push0; rewrite E; reflexivity.
+  Qed.
+
+  Theorem reject_bad_swap_operand : forall p sp n a b rest,
+    seq fl2 Top (Some n) p sp -> wf_prog p = true -> spell_name Top O_SWAP n ->
+    val_index a = Err \/ (exists va, val_index a = Ok va /\ val_index b = Err) ->
+    existsb unmodelled_symbol (a :: b :: rest) = false ->
+    assemble_r fl2 (sp ++ n :: a :: b :: rest) = Err.
+  Proof.
+    intros p sp n a b rest S W N E U. apply (reject_after (Some n) p sp (n :: a :: b :: rest) S W eq_refl).
+    - cbn [existsb] in *. destruct (leafb_spec n (spell_name_leaf Top _ n N)) as (U' & _). rewrite U'. exact U.
+    - intros f n'. apply asm_loop_err. rewrite PN_S.
+      change n with (defpre Top n) at 1. rewrite (pn_opcode fl2 _ _ Top n _ O_SWAP N eq_refl).
+      cbn [tl]. unfold get_args. cbn [shape_of]. unfold args_swap.
+      destruct E as [E|(va & E1 & E2)]; [rewrite E; reflexivity|]. rewrite E1, E2. reflexivity.
+  Qed.
+
+  (* 2b. the explicit size of OP_PUSH1 / OP_PUSH2 does not denote the length of the value
+     (_check_push_size; before that fix these sources were mis-assembled: findings A1, A2) *)
+  Lemma sp_size_mismatch : forall m a v, sp_size m a -> m <> blen v -> check_push_size (Some a) v = Err.
+  Proof.
+    intros m a v [c r C H|c r b C H NE E] D; unfold check_push_size.
+    - destruct (sp_snum_spec _ _ H) as (sg & d & Q & G & _ & V & S).
+      assert (N : nonempty r = true).
+      { rewrite Q. destruct S as [->|[->| ->]]; try reflexivity. cbn [append]. apply G. }
+      rewrite N. apply Z.eqb_neq in D.
+      destruct C as [->| ->]; cbn - [py_int Z.eqb]; rewrite V; cbn [of_opt rbind]; rewrite D; reflexivity.
+    - assert (N : nonempty r = true).
+      { pose proof (sp_hex_length _ _ H) as L. destruct b; [congruence|]. cbn [List.length] in L.
+        destruct r; [cbn [String.length] in L; lia|reflexivity]. }
+      rewrite N. subst m. apply Z.eqb_neq in D.
+      destruct C as [->| ->]; cbn - [Z.eqb]; rewrite (sp_hex_unhex _ _ H); cbn [of_opt rbind]; rewrite D; reflexivity.
+  Qed.
+
+  Theorem reject_push1_size : forall p sp n a v s rest,
+    seq fl2 Top (Some n) p sp -> wf_prog p = true -> spell_name Top O_PUSH1 n ->
+    sp_var1 fl2 v s -> oplike s = false -> check_push_size (Some a) v = Err ->
+    existsb unmodelled_symbol (a :: rest) = false ->
+    assemble_r fl2 (sp ++ n :: a :: s :: rest) = Err.
+  Proof.
+    intros p sp n a v s rest S W N V O E U.
+    apply (reject_after (Some n) p sp (n :: a :: s :: rest) S W eq_refl).
+    - cbn [existsb] in *. destruct (leafb_spec n (spell_name_leaf Top _ n N)) as (U1 & _).
+      destruct (leafb_spec s (sp_var1_leaf fl2 v s V)) as (U2 & _).
+      apply orb_false_elim in U as [Ua Ur]. rewrite U1, U2, Ua, Ur. reflexivity.
+    - intros f n'. apply asm_loop_err. rewrite PN_S.
+      change n with (defpre Top n) at 1. rewrite (pn_opcode fl2 _ _ Top n _ O_PUSH1 N eq_refl).
+      cbn [tl]. unfold get_args. cbn [shape_of]. unfold args_push1. cbn [pick_val]. rewrite O. cbn [rbind].
+      rewrite (sp_var1_ok fl2 v s V). cbn [rbind]. unfold len1_r.
+      destruct (blen v <? 256); [|reflexivity]. cbn [rbind]. rewrite E. reflexivity.
+  Qed.
+
+  Theorem reject_push2_size : forall p sp n a v s rest,
+    seq fl2 Top (Some n) p sp -> wf_prog p = true -> spell_name Top O_PUSH2 n ->
+    sp_push2 fl2 v s -> oplike s = false -> check_push_size (Some a) v = Err ->
+    existsb unmodelled_symbol (a :: rest) = false ->
+    assemble_r fl2 (sp ++ n :: a :: s :: rest) = Err.
+  Proof.
+    intros p sp n a v s rest S W N V O E U.
+    apply (reject_after (Some n) p sp (n :: a :: s :: rest) S W eq_refl).
+    - cbn [existsb] in *. destruct (leafb_spec n (spell_name_leaf Top _ n N)) as (U1 & _).
+      destruct (leafb_spec s (sp_push2_leaf fl2 v s V)) as (U2 & _).
+      apply orb_false_elim in U as [Ua Ur]. rewrite U1, U2, Ua, Ur. reflexivity.
+    - intros f n'. apply asm_loop_err. rewrite PN_S.
+      change n with (defpre Top n) at 1. rewrite (pn_opcode fl2 _ _ Top n _ O_PUSH2 N eq_refl).
+      cbn [tl]. unfold get_args. cbn [shape_of]. unfold args_push2. cbn [pick_val]. rewrite O. cbn [rbind].
+      rewrite (sp_push2_ok fl2 v s V). cbn [rbind]. unfold len2_r.
+      destruct (blen v <? 65536); [|reflexivity]. cbn [rbind]. rewrite E. reflexivity.
+  Qed.
+
+  (* 3. unknown name (this covers 4a: a closing brace, END_ word, ELSE, EXCEPT, parenthesis without
+     its opening statement) *)
+  Definition unknown_name (n : string) : Prop :=
+    is_comment n = false /\ opcode_index (canon n) = None /\ nop_index (canon n) = None /\
+    String.eqb (canon n) "OP_PUSH" = false /\ String.eqb (canon n) "OP_TRY" = false /\
+    match canon n with String c _ => Ascii.eqb c "@" = false /\ Ascii.eqb c "!" = false | EmptyString => True end.
+
+  Lemma pn_unknown : forall asm pn n tail, unknown_name n -> parse_next fl2 asm pn n tail = Err.
+  Proof.
+    intros asm pn n tail (A & B & C & D & E & G). unfold parse_next. rewrite A.
+    destruct (canon n) as [|c0 cr] eqn:Q; [reflexivity|]. destruct G as [G1 G2].
+    rewrite B, C, D, E, G1, G2.
+    assert (X1 : String.eqb (String c0 cr) "@=" = false).
+    { cbn [String.eqb]. rewrite G1. reflexivity. }
+    assert (X2 : String.eqb (String c0 cr) "!=" = false).
+    { cbn [String.eqb]. rewrite G2. reflexivity. }
+    assert (X3 : is_prefix "@#" (String c0 cr) = false).
+    { unfold is_prefix. cbn [prefix]. destruct (ascii_dec "@" c0) as [<-|_]; [discriminate G1|reflexivity]. }
+    rewrite X1, X2, X3. reflexivity.
+  Qed.
+
+  Theorem reject_unknown_name : forall nx p sp n rest,
+    seq fl2 Top nx p sp -> wf_prog p = true -> nx = Some n -> unknown_name n ->
+    existsb unmodelled_symbol (n :: rest) = false ->
+    assemble_r fl2 (sp ++ n :: rest) = Err.
+  Proof.
+    intros nx p sp n rest S W -> K U. apply (reject_after _ p sp (n :: rest) S W eq_refl U).
+    intros f n'. apply asm_loop_err. rewrite PN_S. apply pn_unknown. exact K.
+  Qed.
+
+  Lemma unknown_specials : Forall unknown_name
+    ["}"; "{"; "("; ")"; "ELSE"; "END_IF"; "END_DEF"; "END_LOOP"; "END_TRY"; "EXCEPT"; "END_EXCEPT";
+     "OP_NOP92"; "NOP91"; "NOP256"; "NOP092"; "FOO"; "OP_FOO"; "true"; "op_true"].
+  Proof. repeat (apply Forall_cons; [repeat split; reflexivity|]). apply Forall_nil. Qed.
+
+  (* 4. unbalanced braces *)
+  (* 4a. a closing brace that closes nothing *)
+  Corollary reject_extra_close : forall p sp rest,
+    seq fl2 Top (Some "}") p sp -> wf_prog p = true -> existsb unmodelled_symbol rest = false ->
+    assemble_r fl2 (sp ++ "}" :: rest) = Err.
+  Proof.
+    intros p sp rest S W U. apply (reject_unknown_name _ p sp "}" rest S W eq_refl); [|exact U].
+    repeat split; reflexivity.
+  Qed.
+
+  (* 4b. an opening brace and no closing brace in the rest of the source *)
+  Lemma block_start_unclosed : forall ends kw t, mem "}" t = false ->
+    block_start ends (kw :: "{" :: t) = Err.
+  Proof.
+    intros ends kw t H. cbn [block_start]. change (String.eqb "{" "{") with true. cbv iota.
+    assert (mem "}" ("{" :: t) = false) as ->; [|reflexivity].
+    unfold mem in *. cbn [existsb]. rewrite H. reflexivity.
+  Qed.
+
+  Theorem reject_unclosed_block : forall p sp n rest,
+    seq fl2 Top (Some n) p sp -> wf_prog p = true ->
+    spell_name Top O_IF n \/ spell_name Top O_LOOP n \/ try_name n ->
+    mem "}" rest = false -> existsb unmodelled_symbol rest = false ->
+    assemble_r fl2 (sp ++ n :: "{" :: rest) = Err.
+  Proof.
+    intros p sp n rest S W N M U. apply (reject_after (Some n) p sp (n :: "{" :: rest) S W eq_refl).
+    - cbn [existsb]. rewrite U.
+      assert (unmodelled_symbol n = false) as ->; [|reflexivity].
+      destruct N as [N|[N|[->| ->]]]; try reflexivity;
+        destruct (leafb_spec n (spell_name_leaf Top _ n N)) as (U' & _); exact U'.
+    - intros f n'. apply asm_loop_err. rewrite PN_S. destruct N as [N|[N|N]].
+      + change n with (defpre Top n) at 1. rewrite pn_if_kw by exact N.
+        rewrite parse_if_nohoist by reflexivity. unfold if_rest. rewrite block_start_unclosed by exact M. reflexivity.
+      + change n with (defpre Top n) at 1. rewrite pn_loop_kw by exact N.
+        unfold parse_loop. rewrite block_start_unclosed by exact M. reflexivity.
+      + change n with (defpre Top n) at 1. rewrite pn_try_kw by exact N.
+        unfold parse_try. rewrite block_start_unclosed by exact M. reflexivity.
+  Qed.
+
+  Theorem reject_unclosed_def : forall p sp n h hs rest,
+    seq fl2 Top (Some n) p sp -> wf_prog p = true -> spell_name Top O_DEF n -> sp_handle h hs ->
+    mem "}" rest = false -> existsb unmodelled_symbol rest = false ->
+    assemble_r fl2 (sp ++ n :: hs :: "{" :: rest) = Err.
+  Proof.
+    intros p sp n h hs rest S W N Hh M U.
+    apply (reject_after (Some n) p sp (n :: hs :: "{" :: rest) S W eq_refl).
+    - cbn [existsb]. rewrite U.
+      destruct (leafb_spec n (spell_name_leaf Top _ n N)) as (U1 & _).
+      destruct (leafb_spec hs (sp_handle_leaf h hs Hh)) as (U2 & _). rewrite U1, U2. reflexivity.
+    - intros f n'. apply asm_loop_err. rewrite PN_S.
+      change n with (defpre Top n) at 1. rewrite pn_def_kw by exact N.
+      unfold parse_def. rewrite (sp_handle_ok h hs Hh). cbn [rbind].
+      change (String.eqb "{" "{") with true. cbv iota.
+      destruct (leafb_spec n (spell_name_leaf Top _ n N)) as (_ & _ & K1 & _).
+      destruct (leafb_spec hs (sp_handle_leaf h hs Hh)) as (_ & _ & K2 & _).
+      assert (mem "}" (n :: hs :: "{" :: rest) = false) as ->; [|reflexivity].
+      unfold mem in *. cbn [existsb]. rewrite (String.eqb_sym "}" n), (String.eqb_sym "}" hs), K1, K2, M. reflexivity.
+  Qed.
+End Rejections.
+
+(* ====================================================================================== *)
+(* Names are case-insensitive in the source: get_symbols upper-cases every spelling of a    *)
+(* name (norm_token), and assemble compares the upper-case names                             *)
+(* ====================================================================================== *)
+
+Definition keyword_syms : list string :=
+  ["PUSH"; "OP_PUSH"; "TRY"; "OP_TRY"; "{"; "}"; "("; ")"; "ELSE"; "END_IF"; "END_DEF"; "END_LOOP";
+   "EXCEPT"; "END_EXCEPT"].
+Definition all_names : list string :=
+  gen_opcode_names ++ map fst gen_aliases ++ map nop_name gen_nop_codes ++ keyword_syms.
+
+(* a name does not look like a value after upper-casing *)
+Definition not_valuelike (n : string) : bool :=
+  match n with
+  | EmptyString => true
+  | String c r =>
+    negb (Ascii.eqb c "D" && isnumeric r) && negb (Ascii.eqb c "X" && is_hex_s r)
+    && negb (Ascii.eqb c "S" && match r with String q _ => Ascii.eqb q dquote || Ascii.eqb q squote | _ => true end)
+    && negb (Ascii.eqb c "!") && negb (Ascii.eqb c "@")
+    && negb (Ascii.eqb c "d") && negb (Ascii.eqb c "x") && negb (Ascii.eqb c "s")
+  end.
+Lemma names_not_valuelike : forallb not_valuelike all_names = true.
+Proof. vm_compute. reflexivity. Qed.
+
+Lemma upper_digit : forall c, is_digit c = true -> upper_c c = c.
+Proof. intros c. destruct c as [[] [] [] [] [] [] [] []]; intros H; try discriminate H; reflexivity. Qed.
+Lemma upper_digits : forall r, sall is_digit r = true -> upper_s r = r.
+Proof.
+  induction r as [|c r IH]; intros H; [reflexivity|]. cbn [sall] in H. apply andb_prop in H as [H1 H2].
+  unfold upper_s in *. cbn [smap]. rewrite upper_digit, IH by assumption. reflexivity.
+Qed.
+Lemma hex_upper : forall c, is_hexlow (lower_c c) = true -> is_hexlow (lower_c (upper_c c)) = true.
+Proof. intros c. destruct c as [[] [] [] [] [] [] [] []]; intros H; try discriminate H; reflexivity. Qed.
+Lemma is_hex_upper : forall r, is_hex_s r = true -> is_hex_s (upper_s r) = true.
+Proof.
+  induction r as [|c r IH]; intros H; [reflexivity|]. unfold is_hex_s in *. cbn [sall] in H.
+  apply andb_prop in H as [H1 H2]. unfold upper_s. cbn [smap sall]. fold (upper_s r).
+  rewrite IH by exact H2. fold (is_hexlow (lower_c c)) in H1. fold (is_hexlow (lower_c (upper_c c))).
+  rewrite hex_upper by exact H1. reflexivity.
+Qed.
+
+Theorem names_case_insensitive : forall n t, In n all_names -> upper_s t = n -> norm_token t = n.
+Proof.
+  intros n t I E. pose proof (proj1 (forallb_forall _ _) names_not_valuelike n I) as K.
+  subst n. destruct t as [|c r]; [reflexivity|]. unfold norm_token.
+  unfold upper_s in K. cbn [smap not_valuelike] in K. fold (upper_s r) in K.
+  repeat (apply andb_prop in K as [K ?]).
+  repeat match goal with H : negb _ = true |- _ => apply negb_true_iff in H end.
+  destruct (Ascii.eqb c "d") eqn:Ed.
+  { apply Ascii.eqb_eq in Ed. subst c. destruct (isnumeric r) eqn:N; [|reflexivity].
+    exfalso. unfold isnumeric in N. apply andb_prop in N as [N1 N2].
+    rewrite (upper_digits r N2) in K. unfold isnumeric in K. rewrite N1, N2 in K. discriminate K. }
+  destruct (Ascii.eqb c "x") eqn:Ex.
+  { apply Ascii.eqb_eq in Ex. subst c. destruct (is_hex_s r) eqn:N; [|reflexivity].
+    exfalso. rewrite (is_hex_upper r N) in *.
+    match goal with H : Ascii.eqb (upper_c "x") "X" && true = false |- _ => discriminate H end. }
+  destruct (Ascii.eqb c "s") eqn:Es.
+  { apply Ascii.eqb_eq in Es. subst c. destruct r as [|q r']; [exfalso|].
+    - match goal with H : Ascii.eqb (upper_c "s") "S" && _ = false |- _ => discriminate H end.
+    - destruct (Ascii.eqb q dquote || Ascii.eqb q squote) eqn:Q; [|reflexivity]. exfalso.
+      assert (upper_c q = q) as Uq.
+      { apply orb_prop in Q as [Q|Q]; apply Ascii.eqb_eq in Q; subst q; reflexivity. }
+      match goal with H : Ascii.eqb (upper_c "s") "S" && _ = false |- _ =>
+        unfold upper_s in H; cbn [smap] in H; rewrite Uq, Q in H; discriminate H end. }
+  destruct (Ascii.eqb c "!") eqn:E1.
+  { apply Ascii.eqb_eq in E1. subst c. exfalso.
+    match goal with H : Ascii.eqb (upper_c "!") "!" = false |- _ => discriminate H end. }
+  destruct (Ascii.eqb c "@") eqn:E2.
+  { apply Ascii.eqb_eq in E2. subst c. exfalso.
+    match goal with H : Ascii.eqb (upper_c "@") "@" = false |- _ => discriminate H end. }
+  reflexivity.
+Qed.
+
+(* every key of the generated alias table is a name of an opcode, and so is every OP_ name *)
+Lemma alias_targets : forallb (fun p => match opcode_index (snd p) with Some _ => true | None => false end)
+                        gen_aliases = true.
+Proof. vm_compute. reflexivity. Qed.
+
+Theorem every_alias_spells : forall a t, In (a, t) gen_aliases -> exists o, t = opcode_name o /\ spell_name Top o a.
+Proof.
+  intros a t I. pose proof (proj1 (forallb_forall _ _) alias_targets _ I) as K. cbn [snd] in K.
+  destruct (opcode_index t) as [k|] eqn:E; [|discriminate K].
+  unfold opcode_index in E. rewrite <- opcode_names_match in E.
+  assert (X : exists o, t = opcode_name o).
+  { clear -E. revert k E. generalize all_opcodes. induction l as [|o l IH]; intros k E; [discriminate E|].
+    cbn [map index_of] in E. destruct (String.eqb (opcode_name o) t) eqn:Q.
+    - apply String.eqb_eq in Q. eauto.
+    - destruct (index_of t (map opcode_name l)) eqn:E2; [|discriminate E]. eapply IH. reflexivity. }
+  destruct X as (o & ->). exists o. split; [reflexivity|]. right. split; [exact I|discriminate].
+Qed.
+
+(* ====================================================================================== *)
+(* Findings: behaviours of the compiler that look like defects, as computations of the      *)
+(* model; every source below was run through the real compiler (parsing.compile_script)      *)
+(* with the same outcome (see also the self-tests at the end of model/Assembler.v)           *)
+(* ====================================================================================== *)
+
+Definition asm (syms : list string) : res bytes := assemble_r fl2_exact syms.
+Definition enc (p : list instr) : res bytes := Ok (encode p).
+
+(* A1, A2 (oddity O1) -- FIXED in the implementation by _check_push_size.  Before the fix the size
+   operand of "OP_PUSH1 size value" / "OP_PUSH2 size value" was never looked at:
+   "push1 d99 x0102 true" assembled to 03 02 0102 01, and "push1 x0102 x0304 true" MIS-ASSEMBLED to
+   03 02 0304 01 (the first value dropped silently, because the second symbol does not look like a
+   name).  Both are now rejected, as is every size form that does not denote the length of the value
+   ([reject_push1_size], [reject_push2_size] with [sp_size_mismatch]); the sizes that do are accepted. *)
+Theorem fixed_push1_size_checked :
+  asm ["PUSH1"; "d99"; "x0102"; "TRUE"] = Err /\
+  asm ["PUSH2"; "d99"; "x0102"; "TRUE"] = Err /\
+  asm ["PUSH1"; "x0102"; "x0304"; "TRUE"] = Err /\
+  asm ["PUSH1"; "x2"; "x0102"; "TRUE"] = Err /\
+  asm ["PUSH1"; "d2.0"; "x0102"; "TRUE"] = Err /\
+  asm ["PUSH1"; "x"; "x"; "TRUE"] = Err /\
+  asm ["PUSH1"; "d2"; "x0102"; "TRUE"] = enc [IVar1 O_PUSH1 [x01; x02]; IOp0 O_TRUE] /\
+  asm ["PUSH1"; "D+2"; "x0102"; "TRUE"] = enc [IVar1 O_PUSH1 [x01; x02]; IOp0 O_TRUE] /\
+  asm ["PUSH1"; "d0"; "x"; "TRUE"] = enc [IVar1 O_PUSH1 []; IOp0 O_TRUE] /\
+  asm ["PUSH2"; "x0002"; "x0102"; "TRUE"] = enc [IPush2 [x01; x02]; IOp0 O_TRUE].
+Proof. repeat split; vm_compute; reflexivity. Qed.
+
+(* A3 (O1).  the one-operand form "push1 value" is rejected at the end of the source and before
+   END_LOOP, EXCEPT, END_EXCEPT, TRY, PUSH, @k, a comment -- which are not in the list that the
+   lookahead consults -- while it is accepted before a closing brace, END_IF, an opcode name *)
+Theorem finding_push1_lookahead :
+  asm ["PUSH1"; "x0102"] = Err /\
+  asm ["LOOP"; "PUSH1"; "x01"; "END_LOOP"] = Err /\
+  asm ["LOOP"; "{"; "PUSH1"; "x01"; "}"] = enc [ILoop [IVar1 O_PUSH1 [x01]]] /\
+  asm ["TRY"; "PUSH1"; "x01"; "EXCEPT"; "TRUE"; "END_EXCEPT"] = Err /\
+  asm ["PUSH1"; "x01"; "TRY"; "{"; "TRUE"; "}"] = Err /\
+  asm ["PUSH1"; "x01"; "PUSH"; "x02"] = Err /\
+  asm ["PUSH1"; "x01"; "@k"] = Err /\
+  asm ["PUSH1"; "x01"; "#"; "C"; "#"] = Err /\
+  asm ["PUSH1"; "x01"; "TRUE"] = enc [IVar1 O_PUSH1 [x01]; IOp0 O_TRUE].
+Proof. repeat split; vm_compute; reflexivity. Qed.
+
+(* A4 (O2).  "def 0 { op_rcz x01 }": the OP_-prefixed short aliases are rejected directly inside a
+   DEF body (parse_def turns OP_RCZ into OP_OP_RCZ) while they are accepted everywhere else *)
+Theorem finding_def_alias :
+  asm ["DEF"; "0"; "{"; "OP_RCZ"; "x01"; "}"] = Err /\
+  asm ["DEF"; "0"; "{"; "RCZ"; "x01"; "}"] = enc [IDef x00 [IVar1 O_READ_CACHE_SIZE [x01]]] /\
+  asm ["OP_RCZ"; "x01"] = enc [IVar1 O_READ_CACHE_SIZE [x01]] /\
+  asm ["IF"; "{"; "OP_RCZ"; "x01"; "}"] = enc [IIf [IVar1 O_READ_CACHE_SIZE [x01]]].
+Proof. repeat split; vm_compute; reflexivity. Qed.
+
+(* A5 (O4).  "try true end_try": END_TRY is announced by parse_try's own check (and error message)
+   but never handled *)
+Theorem finding_end_try :
+  asm ["TRY"; "TRUE"; "END_TRY"] = Err /\
+  asm ["TRY"; "{"; "TRUE"; "}"] = enc [ITry [IOp0 O_TRUE] []].
+Proof. split; vm_compute; reflexivity. Qed.
+
+(* A6 (O3).  unbalanced or mismatched block terminators are accepted: "if { if { true }" (one brace
+   missing), "loop { if { true end_if }" (END_IF closes a brace block) *)
+Theorem finding_unbalanced_accepted :
+  asm ["IF"; "{"; "IF"; "{"; "TRUE"; "}"] = enc [IIf [IIf [IOp0 O_TRUE]]] /\
+  asm ["LOOP"; "{"; "IF"; "{"; "TRUE"; "END_IF"; "}"] = enc [ILoop [IIf [IOp0 O_TRUE]]].
+Proof. split; vm_compute; reflexivity. Qed.
+
+(* A7.  OP_DEF inside an OP_DEF body is refused only at the first level: "def 0 { def 1 { true } }"
+   is rejected, "def 0 { if { def 1 { true } } }" is accepted; and the decompiler's listing of byte
+   code with a DEF directly in a DEF body cannot be compiled again, so the premise [ldef_ok] of
+   [assemble_listing] is necessary *)
+Theorem finding_def_in_def :
+  asm ["DEF"; "0"; "{"; "DEF"; "1"; "{"; "TRUE"; "}"; "}"] = Err /\
+  asm ["DEF"; "0"; "{"; "IF"; "{"; "DEF"; "1"; "{"; "TRUE"; "}"; "}"; "}"]
+    = enc [IDef x00 [IIf [IDef x01 [IOp0 O_TRUE]]]].
+Proof. split; vm_compute; reflexivity. Qed.
+
+Theorem assemble_listing_needs_ldef_ok :
+  exists p, wf_prog p = true /\ decode (encode p) = Some p /\
+            assemble fl2_exact (tokens_of (print fl2_exact 0 p)) = None /\
+            parse_listing fl2_exact (tokens_of (print fl2_exact 0 p)) = Some p.
+Proof. exists [IDef x00 [IDef x01 [IOp0 O_TRUE]]]. repeat split; vm_compute; reflexivity. Qed.
+
+(* A8.  an ELSE after a brace block always belongs to that block: in
+   "if if { true } else false end_if" the inner IF takes the ELSE and the END_IF, and the outer IF
+   just ends with the source *)
+Theorem finding_dangling_else :
+  asm ["IF"; "IF"; "{"; "TRUE"; "}"; "ELSE"; "FALSE"; "END_IF"]
+    = enc [IIf [IIfElse [IOp0 O_TRUE] [IOp0 O_FALSE]]].
+Proof. vm_compute. reflexivity. Qed.
+
+(* ====================================================================================== *)
+(* The relation is inhabited: the example source of the task                                 *)
+(*   if ( true ) { push d1 } else { push x0102 } @= k 1 @k                                   *)
+(* ====================================================================================== *)
+
+Lemma assoc_In : forall a t l, assoc a l = Some t -> In (a, t) l.
+Proof.
+  induction l as [|[k v] l IH]; intros H; [discriminate H|]. cbn [assoc] in H.
+  destruct (String.eqb k a) eqn:E.
+  - apply String.eqb_eq in E. injection H as ->. subst. left. reflexivity.
+  - right. apply IH. exact H.
+Qed.
+Lemma alias_name : forall c a o, alias_of a = Some (opcode_name o) -> is_prefix "OP_" a = false -> spell_name c o a.
+Proof. intros c a o H P. right. split; [apply assoc_In; exact H|intros _; exact P]. Qed.
+
+Definition example_prog : list instr :=
+  [IOp0 O_TRUE; IIfElse [IOp1 O_PUSH0 x01] [IVar1 O_PUSH1 [x01; x02]];
+   IWriteCache (str "k") x01; IVar1 O_READ_CACHE (str "k")].
+Definition example_syms : list string :=
+  ["IF"; "("; "TRUE"; ")"; "{"; "PUSH"; "d1"; "}"; "ELSE"; "{"; "PUSH"; "x0102"; "}"; "@="; "k"; "1"; "@k"].
+
+Example example_spells : spells fl2_exact example_prog example_syms.
+Proof.
+  unfold spells, example_prog, example_syms.
+  apply (sq_cons fl2_exact Top None [IOp0 O_TRUE; IIfElse [IOp1 O_PUSH0 x01] [IVar1 O_PUSH1 [x01; x02]]]
+           ["IF"; "("; "TRUE"; ")"; "{"; "PUSH"; "d1"; "}"; "ELSE"; "{"; "PUSH"; "x0102"; "}"]
+           [IWriteCache (str "k") x01; IVar1 O_READ_CACHE (str "k")] ["@="; "k"; "1"; "@k"]).
+  - apply (st_ifh fl2_exact Top _ "IF" [IOp0 O_TRUE] ["TRUE"] (IIfElse [IOp1 O_PUSH0 x01] [IVar1 O_PUSH1 [x01; x02]])
+             (braces ["PUSH"; "d1"] ++ "ELSE" :: braces ["PUSH"; "x0102"])).
+    + apply alias_name; reflexivity.
+    + apply (sq_cons fl2_exact _ None [IOp0 O_TRUE] ["TRUE"] [] []); [|apply sq_nil].
+      apply st_op0; [apply alias_name; reflexivity|reflexivity].
+    + apply ite_bb.
+      * apply (sq_cons fl2_exact _ _ [IOp1 O_PUSH0 x01] ["PUSH"; "d1"] [] []); [|apply sq_nil].
+        apply (st_pushp fl2_exact _ _ "PUSH" [x01] "d1"); [left; reflexivity| |reflexivity].
+        apply (sp_d fl2_exact _ "d" "1" 1); [left; reflexivity| |reflexivity].
+        apply (num_dec 1). discriminate.
+      * apply (sq_cons fl2_exact _ _ [IVar1 O_PUSH1 [x01; x02]] ["PUSH"; "x0102"] [] []); [|apply sq_nil].
+        apply (st_pushp fl2_exact _ _ "PUSH" [x01; x02] "x0102"); [left; reflexivity| |reflexivity].
+        apply sp_x; [left; reflexivity|reflexivity].
+  - apply (sq_cons fl2_exact Top None [IWriteCache (str "k") x01] ["@="; "k"; "1"] [IVar1 O_READ_CACHE (str "k")] ["@k"]).
+    + apply st_setvar; [reflexivity|]. apply (num_dec 1). discriminate.
+    + apply (sq_cons fl2_exact Top None [IVar1 O_READ_CACHE (str "k")] ["@k"] [] []); [|apply sq_nil].
+      apply st_loadvar. reflexivity.
+Qed.
+
+Example example_assembles : assemble fl2_exact example_syms = Some (encode example_prog).
+Proof. apply assemble_spells; [apply example_spells|reflexivity]. Qed.
+
+Print Assumptions assemble_spells.
+Print Assumptions assemble_r_spells.
+Print Assumptions assemble_listing.
+Print Assumptions assemble_parse_listing.
+Print Assumptions assemble_decompile.
+Print Assumptions reject_after.
+Print Assumptions reject_operand_missing.
+Print Assumptions reject_operand_missing_nop.
+Print Assumptions reject_operand_missing_push.
+Print Assumptions reject_second_operand_missing.
+Print Assumptions val_byte_out_of_range.
+Print Assumptions reject_bad_byte_operand.
+Print Assumptions reject_bad_swap_operand.
+Print Assumptions reject_unknown_name.
+Print Assumptions reject_extra_close.
+Print Assumptions reject_unclosed_block.
+Print Assumptions reject_unclosed_def.
+Print Assumptions names_case_insensitive.
+Print Assumptions every_alias_spells.
+Print Assumptions assemble_listing_needs_ldef_ok.
+Print Assumptions reject_push1_size.
+Print Assumptions reject_push2_size.
+Print Assumptions fixed_push1_size_checked.
